@@ -244,6 +244,7 @@ def handleGeom (inp out : Toks) : String :=
       -- nil interface / typed nil slices: not geometries of the quantifier; correspondence only
       "ok triv-topnil"
     else if s.jdoc == ["merr"] || s.bdoc == ["merr"] then "propfail marshal-error"
+    else if vNestedEmpty v && unw s.dec2 != want then "propfail nested-empty-collection-rejected"
     else if unw s.dec2 != want then "propfail json-roundtrip-pointer"
     else if vIsNullGeom v then
       -- empty collection: `null`; UnmarshalGeometry rejects what NewGeometry(...).MarshalJSON wrote
@@ -321,6 +322,7 @@ def handleFeat (inp out : Toks) : String :=
     if out.any (· == "panic") then
       (if fNestedEmpty f then "propfail nested-empty-collection-panics" else "propfail panic")
     else if s.jdoc == ["merr"] || s.bdoc == ["merr"] then "propfail marshal-error"
+    else if fNestedEmpty f && unw s.dec1 != want then "propfail nested-empty-collection-rejected"
     else if unw s.dec1 != want then "propfail feature-json-roundtrip"
     else if unw s.dec2 != want then "propfail feature-json-roundtrip-pointer"
     else if s.rm != ["same"] then "propfail feature-json-remarshal"
@@ -360,6 +362,7 @@ def handleFC (inp out : Toks) : String :=
     if out.any (· == "panic") then
       (if (fcFeatures x).any fNestedEmpty then "propfail nested-empty-collection-panics" else "propfail panic")
     else if s.jdoc == ["merr"] || s.bdoc == ["merr"] then "propfail marshal-error"
+    else if (fcFeatures x).any fNestedEmpty && unw s.dec1 != want then "propfail nested-empty-collection-rejected"
     else if unw s.dec1 != want then "propfail fc-json-roundtrip"
     else if unw s.dec2 != want then "propfail fc-json-roundtrip-pointer"
     else if s.rm != ["same"] then "propfail fc-json-remarshal"
